@@ -653,6 +653,7 @@ RECURSIVE B(_, _, _, _), BB(_, _, _, _), BStructLoop(_, _, _, _, _, _), BSeqLoop
 
 B(n, obj, s, c) == IF IsMacro(n) THEN B(Expand(n), obj, s, c) ELSE Wrap(n.k, "build", s, obj, BB(n, obj, s, c))
 Fresh == Mem(<<>>, 0, 0)
+RejOom == [ok |-> FALSE, v |-> <<>>, oom |-> TRUE]
 TypeErrOr(v) == IF v.t \in {"opaque", "frame", "rat"} THEN OutOfModel ELSE "TypeError"
 \* len(obj) as Python has it: [ok, v]
 PyLen(v) == CASE v.t = "bytes" -> Ok(Len(v.b)) [] IsStrLike(v) -> Ok(Len(v.s)) [] v.t = "list" -> Ok(Len(v.xs))
@@ -701,13 +702,13 @@ BB(n, obj, s, c) ==
                            (IF IsIntLike(obj) THEN IntToBytes(ToIntV(obj), sz, FmtSigned(n.fc))
                             ELSE Rej)
                        ELSE IF n.fc = "?" THEN
-                           (IF obj.t \in {"opaque", "frame"} THEN [ok |-> FALSE, v |-> OutOfModel]
+                           (IF obj.t \in {"opaque", "frame"} THEN RejOom
                             ELSE Ok(<<IF Truthy(obj) THEN 1 ELSE 0>>))
                        ELSE IF obj.t = "float" THEN FloatPack(obj.f, n.fc)
                        ELSE IF IsIntLike(obj) THEN
-                           (LET f == IntToF64(ToIntV(obj)) IN IF f.ok THEN FloatPack(f.v, n.fc) ELSE [ok |-> FALSE, v |-> OutOfModel])
+                           (LET f == IntToF64(ToIntV(obj)) IN IF f.ok THEN FloatPack(f.v, n.fc) ELSE RejOom)
                        ELSE Rej
-            IN IF ~enc.ok THEN RErr(IF enc.v = OutOfModel \/ obj.t = "opaque" THEN OutOfModel ELSE "FormatFieldError", s, c, <<>>)
+            IN IF ~enc.ok THEN RErr(IF "oom" \in DOMAIN enc \/ obj.t = "opaque" THEN OutOfModel ELSE "FormatFieldError", s, c, <<>>)
                ELSE Then(SWrite(s, c, VBytes(IF FmtLittle(n.en) THEN Rev(enc.v) ELSE enc.v), sz), LAMBDA w : ROk(obj, w.s, w.c, <<>>))
       [] n.k = "BytesInteger" ->
             IF ~IsIntLike(obj) THEN RErr(IF obj.t = "opaque" THEN OutOfModel ELSE "IntegerError", s, c, <<>>)
